@@ -67,7 +67,7 @@ func genUpdCase(t *rapid.T, withEdit bool) UpdCase {
 	}
 	g := ragen.GenProgram(t, ragen.GenOpt{
 		Rx:       ragen.RxOpt{Stress: 25, MaxDepth: 1, NoQuoteAfterBackslash: openFinding("D4")},
-		MaxDepth: 1, MaxItems: 4, Flags: true, PrefixSuffix: true, Includes: true, Cmdline: true,
+		MaxDepth: 1, MaxItems: 4, Flags: true, PrefixSuffix: true, Includes: true, Cmdline: true, TrailWS: true,
 	})
 	lab := g.Labels
 	if rapid.IntRange(0, 2).Draw(t, "oplike") == 0 {
